@@ -276,8 +276,10 @@ def check_mortar(case):
 def area_cases(draw):
     nA = draw(st.integers(1, 4))
     nB = draw(st.integers(1, 4))
-    xa = sorted(set([0.0] + draw(st.lists(gen.floats(0.05, 0.95), min_size=nA - 1, max_size=nA - 1, unique=True)) + [1.0]))
-    xb = sorted(set([0.0] + draw(st.lists(gen.floats(0.05, 0.95), min_size=nB - 1, max_size=nB - 1, unique=True)) + [1.0]))
+    # interior nodes on a 1e-6 grid: two nodes one ulp apart would collapse into a zero-length segment after scaling
+    grid = gen.floats(0.05, 0.95).map(lambda v: round(v, 6))
+    xa = sorted(set([0.0] + draw(st.lists(grid, min_size=nA - 1, max_size=nA - 1, unique=True)) + [1.0]))
+    xb = sorted(set([0.0] + draw(st.lists(grid, min_size=nB - 1, max_size=nB - 1, unique=True)) + [1.0]))
     LA = draw(gen.logfloat(-1, 1))
     LB = LA * draw(gen.floats(0.3, 3.0))
     x1 = draw(gen.floats(-1.2, 1.2)) * LA
@@ -295,6 +297,8 @@ def check_areas(case):
     ca = onp.array([[x * LA, 0.0] for x in case['xa']])
     cb = onp.array([[case['x1'] + x * LB, -case['gap']] for x in case['xb']])
     na, nb = len(ca), len(cb)
+    if min(onp.diff(ca[:, 0]).min(), onp.diff(cb[:, 0]).min()) < 1e-9 * max(LA, LB):
+        return Result(inconclusive='zero-length-segment')       # degenerate surface mesh: outside the domain
     coords = onp.vstack([ca, cb])
     segA = onp.array([[i, i + 1] for i in range(na - 1)])
     segB = onp.array([[na + i + 1, na + i] for i in range(nb - 1)])      # anti-parallel
